@@ -418,10 +418,12 @@ def gen_message (rng, kind=None, payload_lens=None):
     data = rbytes(rng, rlen(rng, pl))
     tl = rng.choice([len(data), len(data), min(0xffff, len(data) + rint(rng, 8)),
                      0xffff])
+    kw = dict(total_len=tl)
+    if rng.random() < 0.3: kw = {}       # total_len left to be derived from data
     return o.ofp_packet_in(xid=xid, in_port=rint(rng, 16),
                            buffer_id=rng.choice([None, 0, 1, rint(rng, 32) &
                                                  0x7fffffff]),
-                           reason=rint(rng, 8), data=data, total_len=tl)
+                           reason=rint(rng, 8), data=data, **kw)
   if k == "flow_removed":
     return o.ofp_flow_removed(xid=xid, match=gen_match(rng),
                               cookie=rint(rng, 64), priority=rint(rng, 16),
